@@ -80,7 +80,7 @@ def evaluate_z3_expression(
             case Failure(exc):
                 return Failure(exc)
 
-    def not_implemented_failure(_=Nothing) -> Failure[NotImplementedError]:
+    def not_implemented_failure(*_) -> Failure[NotImplementedError]:
         logger = logging.getLogger("Z3 evaluation")
         logger.debug("Evaluation of expression %s not implemented.", expr)
         return Failure(
